@@ -29,14 +29,22 @@ class Prop:
             'delivery, else none; fields = those of the wrapper line); non-trivial = a wrapper was attached')
     assumptions = []
 
-    def wrapper(self, rng, valid=True):
+    def wrapper(self, rng, valid=True, second=None):
+        """`second`: (y, mo, d, h, mi, s) shared by several wrappers of one sequence - real feeds repeat the same
+        second with different milliseconds"""
         if valid:
             f = (rng.randint(1, 9999), rng.randint(1, 12), rng.randint(1, 28), rng.randint(0, 23), rng.randint(0, 59),
-                 rng.randint(0, 59), rng.randint(0, 999), b'%d' % rng.randint(200, 799), b'%d' % rng.randint(1, 10 ** 9),
-                 b'%d' % rng.randint(1, 10 ** 9), rng.randint(0, 1))
+                 rng.randint(0, 59), rng.choice([0, 1, 999, rng.randint(0, 999)]), b'%d' % rng.randint(200, 799),
+                 b'%d' % rng.randint(1, 10 ** 9), b'%d' % rng.randint(1, 10 ** 9), rng.randint(0, 1))
             if rng.random() < 0.2:
                 f = (rng.choice([2020, 2024, 2000, 1600]), 2, 29) + f[3:]
+            if second is not None and rng.random() < 0.6:
+                f = second + f[6:]
             return gen.gatehouse(*f[:7], country=f[7], region=f[8], pss=f[9], online=b'%d' % f[10]), f
+        if second is not None and rng.random() < 0.4:
+            # invalid milliseconds in a second that valid wrappers of the same sequence use as well
+            y, mo, d, h, mi, sec = second
+            return gen.gatehouse(y, mo, d, h, mi, sec, rng.choice([1000, 5000, -1])), None
         bad = rng.choice(['feb30', 'month13', 'hour24', 'ms1000', 'neg', 'year0', 'feb29', 'alpha', 'short'])
         kw = {'feb30': dict(mo=2, d=30), 'month13': dict(mo=13), 'hour24': dict(h=24), 'ms1000': dict(ms=1000),
               'neg': dict(d=-1), 'year0': dict(y=0), 'feb29': dict(y=2021, mo=2, d=29), 'alpha': {}, 'short': {}}[bad]
@@ -52,14 +60,21 @@ class Prop:
         cases = []
         for _ in range(1500 if ctx.tier == 'quick' else 20000):
             parts, seq_no = [], 0
+            second = (rng.randint(1, 9999), rng.randint(1, 12), rng.randint(1, 28), rng.randint(0, 23),
+                      rng.randint(0, 59), rng.randint(0, 59)) if rng.random() < 0.5 else None
             for _ in range(rng.randint(2, 8)):
                 r = rng.random()
                 if r < 0.35:
-                    parts.append([('w',) + self.wrapper(rng, True)])
+                    parts.append([('w',) + self.wrapper(rng, True, second)])
                 elif r < 0.5:
-                    parts.append([('x',) + self.wrapper(rng, False)])
-                elif r < 0.8:
+                    parts.append([('x',) + self.wrapper(rng, False, second)])
+                elif r < 0.7:
                     parts.append([('s', gen.render(gen.payload_bits(rng, 'MessageType1'), chan=rng.choice('AB'))[0], None)])
+                elif r < 0.8:
+                    # a complete one-sentence message that carries a sequence id (1 of 1): delivered at once
+                    seq_no += 1
+                    parts.append([('m%d' % seq_no, gen.render(gen.payload_bits(rng, 'MessageType18'), seq=str(rng.randint(0, 9)),
+                                                             chan='B')[0], 1)])
                 else:
                     n = rng.randint(2, 3)
                     bits = gen.payload_bits(rng, 'MessageType8', length=rng.randint(100, 500))
